@@ -45,7 +45,7 @@ def run(ctx):
     ctx.assume("arithmetic of the occurrence ranges is correct for every input (not decided)")
     prog = common.view(ctx, "default")
     lib = prog.lib
-    roles = common.role_fields(ctx, lib)
+    roles = common.role_fields(ctx, lib, want=("repetition", "min_repetitions", "min_substring_length"))
     cons = constructors(lib)
     if not ctx.floor("THR-G2", "Grapheme constructor functions", len(cons), 2):
         return
